@@ -36,6 +36,12 @@ RoundTripReverse ==
   \A i \in 1..Len(Envs), loc \in Locales :
      PORoundTrip(PMsg, "rev", loc, Envs[i]) = POExpected(PBody, "rev", loc, Envs[i])
 
+\* the rule the catalogue declares selects the form, whatever the locale
+HeaderWins ==
+  \A i \in 1..Len(Envs), rule \in Locales :
+     \A k \in 1..Len(POCatalogueLocales(rule)) :
+        PORoundTripIn(PMsg, "id", rule, POCatalogueLocales(rule)[k], Envs[i]) = POExpected(PBody, "id", rule, Envs[i])
+
 \* the two-form identity expectation is the source rendering (POExpected is
 \* consistent with PORenderSrc)
 ExpectedIsSource ==
